@@ -58,16 +58,28 @@ func main() {
 		if err != nil {
 			return nil // the build will report it
 		}
-		for _, im := range f.Imports {
-			if im.Path.Value != `"sync"` {
+		// splice the import specs from the last to the first so that earlier offsets stay valid
+		ns := string(src)
+		changed := false
+		for i := len(f.Imports) - 1; i >= 0; i-- {
+			im := f.Imports[i]
+			var shim, alias string
+			switch im.Path.Value {
+			case `"sync"`:
+				shim, alias = "vsync", "sync"
+			case `"sync/atomic"`:
+				shim, alias = "vatomic", "atomic"
+			default:
 				continue
 			}
-			alias := "sync"
 			if im.Name != nil {
 				alias = im.Name.Name
 			}
 			s, e := fset.Position(im.Pos()).Offset, fset.Position(im.End()).Offset
-			ns := string(src[:s]) + alias + ` "` + modPath + `/verifshim/vsync"` + string(src[e:])
+			ns = ns[:s] + alias + ` "` + modPath + `/verifshim/` + shim + `"` + ns[e:]
+			changed = true
+		}
+		if changed {
 			rel, _ := filepath.Rel(repo, path)
 			dst := filepath.Join(gen, strings.ReplaceAll(rel, "/", "__"))
 			if err := os.WriteFile(dst, []byte(ns), 0644); err != nil {
@@ -82,7 +94,7 @@ func main() {
 		fmt.Fprintln(os.Stderr, err)
 		os.Exit(1)
 	}
-	for _, pkg := range []string{"vsync", "vsched"} {
+	for _, pkg := range []string{"vsync", "vsched", "vatomic"} {
 		files, _ := filepath.Glob(filepath.Join(shimRoot, pkg, "*.go"))
 		for _, f := range files {
 			replace[filepath.Join(repo, "verifshim", pkg, filepath.Base(f))] = f
